@@ -38,8 +38,8 @@ func (s Step) String() string {
 		return fmt.Sprintf("reinclude(tx %s in block %d at height %d)", s.Tx[len(s.Tx)-2:], s.Block, s.Height)
 	case "reobs":
 		return "reobs(tx " + s.Tx[len(s.Tx)-2:] + ")"
-	case "fault":
-		return "fault(" + s.EP + ")"
+	case "fault", "hold", "release":
+		return s.Op + "(" + s.EP + ")"
 	case "countlag", "pagesize":
 		return fmt.Sprintf("%s=%d", s.Op, s.N)
 	}
@@ -118,6 +118,11 @@ func (w *World) Apply(s Step) []Forward {
 		w.Sim.Reinclude(s.Tx, w.ensureBlock(s.Block, s.Height))
 	case "fault":
 		w.Sim.Fail(s.EP, 1)
+	case "hold":
+		w.Sim.HoldEndpoint(s.EP)
+	case "release":
+		w.Sim.Release(s.EP)
+		w.D.Quiesce()
 	case "countlag":
 		w.Sim.mu.Lock()
 		w.Sim.CountLag = s.N
